@@ -84,6 +84,9 @@ def run_history(kind, targets, counter=None, observe=False):
     observe: call the object's read-only queries between the compute calls (they must not change anything)"""
     if kind == "tempo":
         obj = make_tempo(counter)
+        if observe:
+            d0 = obj.get_dynamics()         # asking for the (still empty) result before the first compute changes nothing either
+            _ = None if d0 is None else list(d0.times)
         for t in targets:
             quiet(obj.compute, t * DT, progress_type="silent")
             if observe:
@@ -93,6 +96,9 @@ def run_history(kind, targets, counter=None, observe=False):
         return [int(round(x / DT)) for x in d.times], [np.array(s) for s in d.states], obj
     if kind == "meanfield":
         obj = make_mf(counter)
+        if observe:
+            d0 = obj.get_dynamics()
+            _ = None if d0 is None else list(d0.times)
         for t in targets:
             quiet(obj.compute, t * DT, progress_type="silent")
             if observe:
@@ -102,6 +108,8 @@ def run_history(kind, targets, counter=None, observe=False):
         sd = d.system_dynamics[0]
         return [int(round(x / DT)) for x in d.times], [np.append(np.array(s).reshape(-1), f) for s, f in zip(sd.states, d.fields)], obj
     obj = make_tebd()
+    if observe:
+        _ = (obj.step, obj.get_augmented_mps())
     for t in targets:
         quiet(obj.compute, t, progress_type="silent")
         if observe:
